@@ -131,7 +131,7 @@ by the corpus of `harness/check_C14.py`) -/
 /-- a diagnostic that quotes a qualified `java.lang` name turns the batch into a "crash" -/
 theorem javac_quoted_java_lang_counterexample :
     analyze .javac []
-      "/tmp/tmpab12cd_9/src/alpha/Main.java:3: error: incompatible types: java.lang.Object cannot be converted to T\n".toList
+      "/tmp/tmpab12cd_9/src/alpha/Main.java:3: error: java.lang.Object cannot be converted to T\n".toList
       = ⟨true, []⟩ := by decide +kernel
 
 /-- the last error of an output without final newline is dropped -/
@@ -152,25 +152,27 @@ def fileB : List Char := toolPath .javac "ab12cd_9".toList "beta".toList
 def fileC : List Char := toolPath .javac "ab12cd_9".toList "gamma".toList
 
 def batch3 : List Item :=
-  [ .error fileA "3".toList [] "incompatible types: String cannot be converted to Integer".toList 0
-      ["    Integer x = \"a\";".toList, "                ^".toList],
-    .warning fileB "7".toList [] "[unchecked] unchecked cast".toList 0 ["    T y = (T) o;".toList],
-    .error fileC "12".toList [] "cannot find symbol".toList 0
-      ["  symbol:   variable foo".toList, "  location: class Main".toList],
-    .error fileA "9".toList [] "missing return statement".toList 0 [],
+  [ .error fileA "3".toList [] "incompatible types".toList 0 ["  Integer x = \"a\";".toList, "     ^".toList],
+    .warning fileB "7".toList [] "[unchecked] cast".toList 0 ["  T y = (T) o;".toList],
+    .error fileC "12".toList [] "cannot find symbol".toList 0 ["  symbol: variable foo".toList],
+    .error fileA "9".toList [] "missing return".toList 0 [],
     .note "Note: Some input files use unchecked or unsafe operations.".toList,
     .summary "3".toList ]
 
+theorem batch3_wf : ∀ i ∈ batch3, WFItem .javac i := by decide +kernel
+
 example : ToolNames "ab12cd_9".toList "alpha".toList := by
   refine ⟨?_, ?_, ?_, ?_⟩ <;> decide +kernel
-example : ∀ i ∈ batch3, WFItem .javac i := by decide +kernel
-example : (analyze .javac [] (render .javac batch3)).failed.map (·.1) = [fileA, fileC] := by
+
+/-- the three-file batch: `alpha` (two errors) and `gamma` are reported, `beta` (a warning only)
+is not -/
+theorem batch3_result :
+    analyze .javac [] (render .javac batch3)
+      = ⟨false, [(fileA, ["3: error: incompatible types".toList, "9: error: missing return".toList]),
+                 (fileC, ["12: error: cannot find symbol".toList])]⟩ := by
+  rw [analyze_render_javac batch3 batch3_wf]
   decide +kernel
-example : lookupFailed fileA (analyze .javac [] (render .javac batch3)).failed
-    = ["3: error: incompatible types: String cannot be converted to Integer".toList,
-       "9: error: missing return statement".toList] := by decide +kernel
-example : lookupFailed fileB (analyze .javac [] (render .javac batch3)).failed = [] := by
-  decide +kernel
+
 example : WFTrace .javac ⟨"java.lang.AssertionError: boom".toList,
     ["\tat jdk.compiler/com.sun.tools.javac.comp.Attr.visitApply(Attr.java:2000)".toList]⟩ := by
   unfold WFTrace; decide +kernel
